@@ -451,12 +451,15 @@ func (d *badgerNodeDB) Finalize(roots []node.Root) error { // nolint: gocyclo
 	// All removals should be done at the end so in case finalization is interrupted, we can recover
 	// by simply redoing finalization. Flush batches here to ensure all node copying has been
 	// committed.
+	api.VerifCrashPoint("pathbadger.finalize.pre-copy")
 	if err := batch.Flush(); err != nil {
 		return err
 	}
+	api.VerifCrashPoint("pathbadger.finalize.post-copy")
 	if err := batchMeta.Flush(); err != nil {
 		return err
 	}
+	api.VerifCrashPoint("pathbadger.finalize.post-copymeta")
 	batch = d.db.NewWriteBatchAt(versionToTs(version))
 	defer batch.Cancel()
 	batchMeta = d.db.NewWriteBatchAt(tsMetadata)
@@ -501,13 +504,16 @@ func (d *badgerNodeDB) Finalize(roots []node.Root) error { // nolint: gocyclo
 	if err := batch.Flush(); err != nil {
 		return err
 	}
+	api.VerifCrashPoint("pathbadger.finalize.post-del")
 	if err := batchMeta.Flush(); err != nil {
 		return err
 	}
+	api.VerifCrashPoint("pathbadger.finalize.post-delmeta")
 
 	// Update last finalized version.
 	d.meta.setLastFinalizedVersion(version)
 	d.meta.commit(tx)
+	api.VerifCrashPoint("pathbadger.finalize.post-meta")
 
 	// Clean multipart metadata if there is any.
 	if d.multipartVersion != multipartVersionNone {
@@ -617,16 +623,20 @@ func (d *badgerNodeDB) Prune(version uint64) error {
 	}
 
 	// Commit batch.
+	api.VerifCrashPoint("pathbadger.prune.pre-flush")
 	if err := batch.Flush(); err != nil {
 		return fmt.Errorf("mkvs/pathbadger: failed to flush batch: %w", err)
 	}
+	api.VerifCrashPoint("pathbadger.prune.post-flush")
 	if err := batchMeta.Flush(); err != nil {
 		return fmt.Errorf("mkvs/pathbadger: failed to flush batch: %w", err)
 	}
+	api.VerifCrashPoint("pathbadger.prune.post-flushmeta")
 
 	// Update metadata.
 	d.meta.setEarliestVersion(version + 1)
 	d.meta.commit(tx)
+	api.VerifCrashPoint("pathbadger.prune.post-meta")
 
 	// Discard everything invalidated at or below the _new_ earliest version. E.g. there is no need
 	// to keep around any keys that were removed at `version + 1`.
@@ -714,6 +724,7 @@ func (d *badgerNodeDB) NewBatch(oldRoot node.Root, version uint64, chunk bool) (
 			return nil, err
 		}
 		d.meta.commit(tx)
+		api.VerifCrashPoint("pathbadger.newbatch.post-seqno")
 		// Start a fresh index.
 		lastIndex = new(atomic.Uint32)
 		lastIndex.Store(indexRootNode)
@@ -918,6 +929,7 @@ func (ba *badgerBatch) Commit(root node.Root) error {
 		return fmt.Errorf("mkvs/pathbadger: failed to set pending root seqno: %w", err)
 	}
 	ba.db.meta.commit(tx)
+	api.VerifCrashPoint("pathbadger.commit.post-seqno")
 
 	if !ba.chunk {
 		// Store updated nodes (only needed until the version is finalized).
@@ -941,9 +953,11 @@ func (ba *badgerBatch) Commit(root node.Root) error {
 	if err := ba.batMeta.Flush(); err != nil {
 		return fmt.Errorf("mkvs/pathbadger: failed to flush batch: %w", err)
 	}
+	api.VerifCrashPoint("pathbadger.commit.post-batmeta")
 	if err := ba.bat.Flush(); err != nil {
 		return fmt.Errorf("mkvs/pathbadger: failed to flush batch: %w", err)
 	}
+	api.VerifCrashPoint("pathbadger.commit.post-bat")
 
 	ba.Reset()
 	return ba.BaseBatch.Commit(root)
